@@ -188,6 +188,7 @@ type gpkg struct {
 	fixedParams      string            // parameters every def takes first
 	fixedArgs        string
 	frIsCoord        bool              // fr.Element is the coordinate field of the points (eddsa)
+	pointSetBytes    bool              // slpsign.go: P.SetBytes(b) on a point is the PARAMETER pair pointSetBytes / pointSetBytesErr
 	inline           map[string]bool   // functions of the package that are executed in place (they return / write slices)
 	opaqueLenZero    bool              // the variadic dataTranscript is specialised to no data
 	lensNames        map[string]string // readable names of specialisations
@@ -928,6 +929,16 @@ func (x *gtr) eval(s *gscope, e ast.Expr) *gv {
 		}
 		reject("%s: unknown identifier %s", x.fname, e.Name)
 	case *ast.SelectorExpr, *ast.IndexExpr, *ast.StarExpr:
+		if se, ok := e.(*ast.SelectorExpr); ok {
+			// a constant of the field package (fr.Bytes, …), when `fr` is not a variable
+			if id, ok := se.X.(*ast.Ident); ok {
+				if _, isVar := s.lookup(id.Name); !isVar {
+					if n, ok := x.p.constInt(se); ok {
+						return mkInt(n)
+					}
+				}
+			}
+		}
 		return x.store[x.lval(s, e)]
 	case *ast.UnaryExpr:
 		switch e.Op {
@@ -1236,6 +1247,9 @@ func (x *gtr) method(s *gscope, recv cellID, name string, c *ast.CallExpr) []*gv
 		return rs
 	}
 	if rs, ok := x.sigMethod(s, recv, name, c); ok {
+		return rs
+	}
+	if rs, ok := x.signMethod(s, recv, name, c); ok { // slpsign.go
 		return rs
 	}
 	x.useG(rv)
@@ -2016,6 +2030,9 @@ func (x *gtr) rangeStmt(s *gscope, st *ast.RangeStmt, rest func() string) string
 }
 
 func (x *gtr) assignStmt(s *gscope, st *ast.AssignStmt) {
+	if x.sigAssign(s, st) { // slpsign.go: dst[k] = src[i], dst[k] &= m on byte strings
+		return
+	}
 	if st.Tok == token.ADD_ASSIGN && len(st.Lhs) == 1 && len(st.Rhs) == 1 {
 		// n += k on integers known at translation time
 		c := x.lval(s, st.Lhs[0])
@@ -2519,6 +2536,7 @@ func runGroup() {
 			p.emit("eddsa_"+d[0], "Eddsa_"+d[0]+".lean", "")
 		})
 	}
+	runGroupSign(guard) // slpsign.go: eddsa Signature.SetBytes (C12 tie T)
 	if len(failures) > 0 {
 		sort.Strings(failures)
 		fmt.Fprintf(os.Stderr, "gvgoslp: group-level verifier code left the supported subset:\n  %s\n", strings.Join(failures, "\n  "))
